@@ -40,20 +40,28 @@ AlgApplies(kind, st, step, name) ==
 AlgFails(kind, st, step, s, ob) ==
   UNION {When(AlgApplies(kind, st, step, a.name) /\ a.e > AlgAcc(a.name), F("alg", s, a.name, 0, a.e)) : a \in Rng(ob.alg)}
 
+\* Hermite coefficients in any state (data, order, r): psi_0 is the mean of the data whatever the support,
+\* the variance (sum of psi_n^2 r^2n) is bounded by the variance of the data (Bessel)
+HermiteMomentFails(ds, s, name, ob) ==
+  LET U == UsableSet(ds)
+      n == Cardinality(U)
+      S == SumVar(ds, 1)
+      Q == SumProd(ds, 1, 1)
+      vs == {ds.vars[1][i] : i \in U}
+      range == SetMax(vs) - SetMin(vs)
+  IN  When(ob.nuse # n, F("nuse", s, name, 0, ob.nuse))
+      \cup When(Abs(ob.psi0m - 1000 * S) > ((n * range) \div 50) + 1, F("psi0-mean", s, name, 0, ob.psi0m - 1000 * S))
+      \cup When(ob.varn2 > (n * Q - S * S) + ((n * Q - S * S) \div 1000) + 2, F("bessel", s, name, 0, ob.varn2 - (n * Q - S * S)))
+
+SupportFails(kind, st, step, s, ob) ==
+  When(ob.err # 0, F("err", s, "support", 0, ob.err)) \cup HermiteMomentFails(Data(step.data), s, "support", ob)
+
 FitFails(kind, st, step, s, ob) ==
   LET ds == Data(step.data)
       U == UsableSet(ds)
       n == Cardinality(U)
   IN When(ob.err # 0, F("err", s, "fit", 0, ob.err))
-     \cup (IF kind = "AH"
-           THEN LET S == SumVar(ds, 1)
-                    Q == SumProd(ds, 1, 1)
-                    vs == {ds.vars[1][i] : i \in U}
-                    range == SetMax(vs) - SetMin(vs)
-                IN  When(ob.nuse # n, F("nuse", s, "fit", 0, ob.nuse))
-                    \cup When(Abs(ob.psi0m - 1000 * S) > ((n * range) \div 50) + 1, F("psi0-mean", s, "fit", 0, ob.psi0m - 1000 * S))
-                    \cup When(ob.varn2 > (n * Q - S * S) + ((n * Q - S * S) \div 1000) + 2, F("bessel", s, "fit", 0, ob.varn2 - (n * Q - S * S)))
-           ELSE {})
+     \cup (IF kind = "AH" THEN HermiteMomentFails(ds, s, "fit", ob) ELSE {})
      \cup (IF kind \in {"PCA", "MAF"}
            THEN LET nv == ds.nvar IN
                     When(ob.nuse # n, F("nuse", s, "fit", 0, ob.nuse))
@@ -81,6 +89,8 @@ ApplyFails(kind, st, step, s, ob) ==
      \cup When(\E i \in 1..n : ob.act[i] = 1 /\
                  (IF kind \in {"PCA", "MAF"} THEN ob.naout[i] # (IF ob.nain[i] > 0 THEN nv ELSE 0)
                   ELSE (ob.naout[i] > 0) # (ob.nain[i] > 0)), F("na", s, step.op, 0, 0))
+     \* the round-trip law in the current state of the object (whatever its support coefficient)
+     \cup (IF restricted THEN When(ob.rt.e > AccOf(kind), F("roundtrip", s, step.op, 0, ob.rt.e)) ELSE {})
      \* monotonicity on the validity domain
      \cup (IF mode # "none"
            THEN When(isBase /\ ob.rin # DenseRank(ds.vars[1], {i \in 1..n : ob.dom[i] = 1}), F("binding", s, "rank-in", 0, 0))
@@ -99,6 +109,7 @@ StepFails(kind, steps, s, ob) ==
       step == steps[s]
   IN (IF step.op = "fit" THEN FitFails(kind, st, step, s, ob)
       ELSE IF step.op = "copy" THEN When(ob.err # 0, F("err", s, "copy", 0, ob.err))
+      ELSE IF step.op = "support" THEN SupportFails(kind, st, step, s, ob)
       ELSE ApplyFails(kind, st, step, s, ob))
      \cup FormFails(s, ob) \cup AlgFails(kind, st, step, s, ob)
 
@@ -135,10 +146,12 @@ Ctx(r, f) ==
   LET steps == r.steps
       st == StBefore(r.kind, steps, Max2(f.step, 1))
       step == IF f.step >= 1 THEN steps[f.step] ELSE steps[1]
-      fit == IF step.op = "fit" THEN [data |-> step.data, opt |-> step.opt] ELSE IF r.kind = "NS" THEN NoFit ELSE ObjOf(st, step.who)
+      fit == IF step.op = "fit" THEN [data |-> step.data, opt |-> step.opt, r |-> st.obj.r]
+             ELSE IF step.op = "support" THEN [st.obj EXCEPT !.r = step.opt]
+             ELSE IF r.kind = "NS" THEN NoFit ELSE ObjOf(st, step.who)
       base == IF step.op \in {"fwd", "inv"} THEN RefBase(st, step.src) ELSE step.data
   IN [tag |-> f.tag, step |-> f.step, name |-> f.name, k |-> f.k, j |-> f.j, e |-> f.e, op |-> step.op,
-      opt |-> fit.opt, fitdata |-> fit.data, base |-> base,
+      opt |-> fit.opt, fitdata |-> fit.data, rcoef |-> fit.r, base |-> base,
       refit |-> CountFits(SubSeq(steps, 1, f.step)) >= 2,
       masked |-> IF base \in AllDataNames THEN \E i \in 1..Data(base).n : Data(base).sel[i] = 0 ELSE FALSE,
       hasna |-> IF base \in AllDataNames THEN \E i \in 1..Data(base).n : ~Isotopic(Data(base), i) ELSE FALSE]
